@@ -5,7 +5,7 @@
    slot, no release of a block that still holds items), the ledger afterwards holds exactly the object's buffers with
    exactly the slots its counters imply constructed, and the destructor leaves the ledger empty. *)
 From Coq Require Import ZArith NArith List Bool Lia.
-From DS Require Import RunnerLib LedgerCore LedgerCoreProofs LedgerKll LedgerKllProofs LedgerTup LedgerTupProofs LedgerFi LedgerFiProofs LedgerReq LedgerReqProofs LedgerDefs.
+From DS Require Import RunnerLib LedgerCore LedgerCoreProofs LedgerKll LedgerKllProofs LedgerTup LedgerTupProofs LedgerFi LedgerFiProofs LedgerReq LedgerReqProofs LedgerVo LedgerVoProofs LedgerDefs.
 Import ListNotations.
 Local Open Scope Z_scope.
 
@@ -16,6 +16,7 @@ Definition ObjInv (o : obj) : Prop :=
   | OT s => TInv s (o_led o) /\ t_blk s <> None
   | OF s => FInv s (o_led o) /\ f_blk s <> None
   | OQ s => QInv s /\ o_led o = q_ledger s
+  | OV s => VInv s (o_led o) /\ v_blk s <> None
   end.
 
 Lemma judge_ok X L es L' : apply_all X L es = Some L' -> judge X L es = (L', false).
@@ -24,12 +25,17 @@ Proof. intros H. unfold judge. now rewrite H. Qed.
 Lemma obj_new_ok kind p1 p2 o bad : obj_new kind p1 p2 = Some (o, bad) -> ObjInv o /\ bad = false.
 Proof.
   unfold obj_new.
-  destruct kind as [|[p|p|]|p]; [ | discriminate | destruct p; [discriminate|discriminate|] | | discriminate ].
+  destruct kind as [|[p|p|]|p]; [ | discriminate | destruct p as [p|p|]; [discriminate|destruct p; [discriminate|discriminate|]|] | | discriminate ].
   - destruct ((p1 <? 8) || (65535 <? p1) || (p2 <? 0) || (255 <? p2)); [discriminate|].
     destruct (new_kll (zN p1)) as [s e] eqn:E.
     destruct (new_kll_ok [] _ _ _ E) as (L & HL & HI).
     rewrite (judge_ok _ _ _ _ HL). intros E2; injection E2 as <- <-. split; auto.
     unfold ObjInv. simpl. split; auto. unfold new_kll in E. injection E as <- _. simpl. congruence.
+  - destruct ((p1 <? 1) || (65535 <? p1) || (p2 <? 0) || (3 <? p2)); [discriminate|].
+    destruct (new_vo (zN p1) (zN p2)) as [s e] eqn:E.
+    destruct (new_vo_ok [] _ _ _ _ E) as (L & HL & HI).
+    rewrite (judge_ok _ _ _ _ HL). intros E2; injection E2 as <- <-. split; auto.
+    unfold ObjInv. simpl. split; auto. unfold new_vo in E. injection E as <- _. simpl. congruence.
   - destruct ((p1 <? 0) || (p2 <? 0) || (12 <? p1) || (12 <? p2)); [discriminate|].
     destruct (new_fim (zN p1) (zN p2)) as [[s e]|] eqn:E; [|discriminate].
     destruct (new_fim_ok [] _ _ _ _ E) as (L & HL & HI & Hnn).
@@ -84,7 +90,7 @@ Lemma obj_update_ok o v w e : ObjInv o ->
   | URefused o' bad => ObjInv o' /\ (bad = false \/ update_aborts o v w e)
   end.
 Proof.
-  unfold ObjInv, obj_update, update_aborts. destruct (o_st o) as [s|s|s|s] eqn:Hs.
+  unfold ObjInv, obj_update, update_aborts. destruct (o_st o) as [s|s|s|s|s] eqn:Hs.
   - intros [HI Hnn]. destruct (kll_update s) as [[s' es]|] eqn:E.
     + destruct (kll_update_ok [] s _ s' es HI E) as (L' & HL' & HI').
       rewrite (judge_ok _ _ _ _ HL'). simpl. repeat split; auto. eapply kll_update_blk; eauto.
@@ -103,11 +109,15 @@ Proof.
   - intros [HQ HL]. destruct (req_update s) as [[s' bad]|] eqn:E.
     + destruct (req_update_ok s s' bad HQ E) as [HQ' ->]. unfold mkq. simpl. auto.
     + rewrite Hs. destruct e; auto.
+  - intros [HI Hnn]. destruct (vo_update s (map zN e)) as [[s' es]|] eqn:E.
+    + destruct (vo_update_ok [] s _ _ s' es HI E) as (L' & HL' & HI' & Hb').
+      rewrite (judge_ok _ _ _ _ HL'). simpl. repeat split; auto.
+    + rewrite Hs. auto.
 Qed.
 
 Lemma obj_copy_ok o c bad : ObjInv o -> obj_copy o = Some (c, bad) -> ObjInv c /\ bad = false.
 Proof.
-  unfold ObjInv, obj_copy. destruct (o_st o) as [s|s|s|s] eqn:Hs.
+  unfold ObjInv, obj_copy. destruct (o_st o) as [s|s|s|s|s] eqn:Hs.
   - intros [HI Hnn]. destruct (kll_copy s) as [[s' es]|] eqn:E; [|discriminate].
     destruct (kll_copy_ok s _ s' es HI E) as (L' & HL' & HI').
     rewrite (judge_ok _ _ _ _ HL'). intros E2; injection E2 as <- <-. simpl. repeat split; auto.
@@ -121,26 +131,31 @@ Proof.
     rewrite (judge_ok _ _ _ _ HL'). intros E2; injection E2 as <- <-. simpl. repeat split; auto.
   - intros [HQ HL]. destruct (req_copy s) as [s' b] eqn:E. destruct (req_copy_ok s s' b HQ E) as [HQ' ->].
     intros E2; injection E2 as <- <-. unfold mkq. simpl. auto.
+  - intros [HI Hnn]. destruct (vo_copy s) as [[s' es]|] eqn:E; [|discriminate].
+    destruct (vo_copy_ok s _ s' es HI E) as (L' & HL' & HI' & Hb').
+    rewrite (judge_ok _ _ _ _ HL'). intros E2; injection E2 as <- <-. simpl. repeat split; auto.
 Qed.
 
 (* the destructor: accepted, and nothing is left in the object's ledger *)
 Lemma obj_destroy_ok o : ObjInv o -> obj_destroy o = false.
 Proof.
-  unfold ObjInv, obj_destroy. destruct (o_st o) as [s|s|s|s].
+  unfold ObjInv, obj_destroy. destruct (o_st o) as [s|s|s|s|s].
   - intros [HI _]. rewrite (judge_ok _ _ _ _ (kll_destroy_ok [] s _ HI)). reflexivity.
   - intros [HI _]. rewrite (judge_ok _ _ _ _ (tup_destroy_ok [] s _ HI)). reflexivity.
   - intros [HI _]. rewrite (judge_ok _ _ _ _ (fim_destroy_ok [] s _ HI)). reflexivity.
   - intros [HQ _]. now apply req_destroy_ok.
+  - intros [HI _]. rewrite (judge_ok _ _ _ _ (vo_destroy_ok [] s _ HI)). reflexivity.
 Qed.
 
 (* a moved-from object owns nothing: destroying it touches nothing *)
 Lemma obj_destroy_moved_from o : obj_destroy (obj_moved_from o) = false.
 Proof.
-  unfold obj_destroy, obj_moved_from. destruct (o_st o) as [s|s|s|s]; simpl.
+  unfold obj_destroy, obj_moved_from. destruct (o_st o) as [s|s|s|s|s]; simpl.
   - unfold kll_destroy. simpl. reflexivity.
   - unfold tup_destroy. simpl. reflexivity.
   - unfold fim_destroy. simpl. reflexivity.
   - reflexivity.
+  - unfold vo_destroy. simpl. reflexivity.
 Qed.
 
 Lemma obj_copy_assign_ok r s o' bad : ObjInv r -> ObjInv s -> obj_copy_assign r s = Some (o', bad) -> ObjInv o' /\ bad = false.
@@ -153,17 +168,20 @@ Qed.
 
 Lemma obj_reset_ok o o' bad : ObjInv o -> obj_reset o = Some (o', bad) -> ObjInv o' /\ bad = false.
 Proof.
-  unfold ObjInv, obj_reset. destruct (o_st o) as [s|s|s|s]; try tauto; try discriminate.
-  intros [HI Hnn]. destruct (tup_reset s) as [[s' es]|] eqn:E; [|discriminate].
-  destruct (tup_reset_ok [] s _ s' es HI E) as (L' & HL' & HI').
-  rewrite (judge_ok _ _ _ _ HL'). intros E2; injection E2 as <- <-. simpl. repeat split; auto.
-  unfold tup_reset in E. destruct (t_blk s); [|discriminate]. cbv zeta in E.
-  destruct (_ =? _)%N; injection E as <- _; simpl; congruence.
+  unfold ObjInv, obj_reset. destruct (o_st o) as [s|s|s|s|s]; try discriminate.
+  - intros [HI Hnn]. destruct (tup_reset s) as [[s' es]|] eqn:E; [|discriminate].
+    destruct (tup_reset_ok [] s _ s' es HI E) as (L' & HL' & HI').
+    rewrite (judge_ok _ _ _ _ HL'). intros E2; injection E2 as <- <-. simpl. repeat split; auto.
+    unfold tup_reset in E. destruct (t_blk s); [|discriminate]. cbv zeta in E.
+    destruct (_ =? _)%N; injection E as <- _; simpl; congruence.
+  - intros [HI Hnn]. destruct (vo_reset s) as [[s' es]|] eqn:E; [|discriminate].
+    destruct (vo_reset_ok [] s _ s' es HI E) as (L' & HL' & HI' & Hb').
+    rewrite (judge_ok _ _ _ _ HL'). intros E2; injection E2 as <- <-. simpl. repeat split; auto.
 Qed.
 
 Lemma obj_trim_ok o o' bad : ObjInv o -> obj_trim o = Some (o', bad) -> ObjInv o' /\ bad = false.
 Proof.
-  unfold ObjInv, obj_trim. destruct (o_st o) as [s|s|s|s]; try tauto; try discriminate.
+  unfold ObjInv, obj_trim. destruct (o_st o) as [s|s|s|s|s]; try tauto; try discriminate.
   intros [HI Hnn]. destruct (tup_trim s) as [[s' es]|] eqn:E; [|discriminate].
   destruct (tup_trim_ok [] s _ s' es HI E) as (L' & HL' & HI').
   rewrite (judge_ok _ _ _ _ HL'). intros E2; injection E2 as <- <-. simpl. repeat split; auto.
@@ -215,7 +233,7 @@ Lemma obj_merge_ok r s u : ObjInv r -> ObjInv s -> obj_merge r s = Some u ->
   end.
 Proof.
   unfold ObjInv, obj_merge, merge_aborts.
-  destruct (o_st r) as [a|a|a|a] eqn:Hr; destruct (o_st s) as [b|b|b|b] eqn:Hs; try discriminate.
+  destruct (o_st r) as [a|a|a|a|a] eqn:Hr; destruct (o_st s) as [b|b|b|b|b] eqn:Hs; try discriminate.
   - intros [HIa Hna] [HIb Hnb].
     destruct (kll_merge a b) as [[a' es] oc] eqn:E.
     destruct (kll_merge_ok a b _ _ a' es oc HIa HIb Hna E) as (L' & HL' & HI').
@@ -261,17 +279,19 @@ Qed.
 
 (* what is alive at rest: exactly the retained items, in a buffer of exactly the capacity the object records *)
 Definition capacity_of (o : obj) : N :=
-  match o_st o with OK s => k_cap s | OT s => t_size s | OF s => f_size s | OQ s => sum_cap (q_comps s) end.
+  match o_st o with OK s => k_cap s | OT s => t_size s | OF s => f_size s | OQ s => sum_cap (q_comps s) | OV s => v_alloc s end.
 
 (* constructed slots of the item buffer: retained items (KLL), retained entries (theta/tuple), slots with states_ > 0 (fi) *)
 Definition constructed_of (o : obj) : N :=
-  match o_st o with OK s => k_retained s | OT s => t_num s | OF s => count_active (f_slots s) | OQ s => sum_num (q_comps s) end.
+  match o_st o with OK s => k_retained s | OT s => t_num s | OF s => count_active (f_slots s) | OQ s => sum_num (q_comps s)
+                   | OV s => (v_retained s + (if (0 <? v_r s) && v_gapc s then 1 else 0))%N end.
 
 Lemma inv_live o : ObjInv o -> live_slots (o_led o) = constructed_of o /\ item_slots (o_led o) = capacity_of o.
 Proof.
-  unfold ObjInv, constructed_of, capacity_of. destruct (o_st o) as [s|s|s|s].
+  unfold ObjInv, constructed_of, capacity_of. destruct (o_st o) as [s|s|s|s|s].
   - intros [HI Hnn]. destruct (k_blk s) as [b|] eqn:Hb; [|congruence]. eapply kll_live; eauto.
   - intros [HI Hnn]. apply tup_live; auto.
   - intros [HI Hnn]. destruct (f_blk s) as [[[kb vb] sb]|] eqn:Hb; [|congruence]. eapply fim_live; eauto.
   - intros [HQ ->]. split; [now apply req_live|now apply req_caps].
+  - intros [HI Hnn]. destruct (v_blk s) as [b|] eqn:Hb; [|congruence]. eapply vo_live; eauto.
 Qed.
